@@ -15,12 +15,31 @@ NAME = "1"
 
 
 class SeqDriver(object):
-    def __init__(self, driver, sides, app="A"):
+    def __init__(self, driver, sides, app="A", dup_at=None):
         self.d = driver
         self.app = app
         self.sides = sides
         self.cur = {}          # side -> cid
         self.first_claim = None
+        self.dup_at = dup_at   # C14: duplicate the k-th successfully answered claim/release/open/close
+        self.eligible = 0
+        self.dup_done = False
+
+    def maybe_dup(self, cs, j, msg, st):
+        if self.dup_at is None or st is None:
+            return
+        types = [f.get("type") for (c, f) in st.frames if c == cs.cid]
+        if "error" in types:
+            return
+        if self.eligible == self.dup_at:
+            d = self.d
+            ncid = d.tr.next_cid
+            d.do({"op": "connect", "c": ncid}, force=True)
+            d.do({"op": "send", "c": ncid, "msg": {"type": "bind", "appid": self.app, "side": cs.side}}, force=True)
+            d.do({"op": "send", "c": ncid, "msg": dict(msg), "dup_of": j}, force=True)
+            d.do({"op": "drop", "c": ncid}, force=True)
+            self.dup_done = True
+        self.eligible += 1
 
     def conn(self, side, fresh=False):
         d = self.d
@@ -52,17 +71,25 @@ class SeqDriver(object):
             if cs.claim_sent:
                 cs = self.conn(side, fresh=True)
             j = len(d.script)
-            st = d.do({"op": "send", "c": cs.cid, "msg": {"type": "claim", "nameplate": NAME}}, force=True)
+            msg = {"type": "claim", "nameplate": NAME}
+            st = d.do({"op": "send", "c": cs.cid, "msg": msg}, force=True)
             if self.first_claim is None and any(f.get("type") == "claimed" for c, f in st.frames):
                 self.first_claim = j
+            self.maybe_dup(cs, j, msg, st)
         elif action == "release":
             if cs.release_done:
                 cs = self.conn(side, fresh=True)
-            d.do({"op": "send", "c": cs.cid, "msg": {"type": "release", "nameplate": NAME}}, force=True)
+            j = len(d.script)
+            msg = {"type": "release", "nameplate": NAME}
+            st = d.do({"op": "send", "c": cs.cid, "msg": msg}, force=True)
+            self.maybe_dup(cs, j, msg, st)
         elif action == "open":
             if cs.holds or cs.open_sent:
                 cs = self.conn(side, fresh=True)
-            d.do({"op": "send", "c": cs.cid, "msg": {"type": "open", "mailbox": self.mailbox()}}, force=True)
+            j = len(d.script)
+            msg = {"type": "open", "mailbox": self.mailbox()}
+            st = d.do({"op": "send", "c": cs.cid, "msg": msg}, force=True)
+            self.maybe_dup(cs, j, msg, st)
         elif action == "add":
             if cs.holds:
                 d.do({"op": "send", "c": cs.cid, "msg": {"type": "add", "phase": "p", "body": side}}, force=True)
@@ -70,7 +97,10 @@ class SeqDriver(object):
             if cs.close_done:
                 cs = self.conn(side, fresh=True)
             mb = cs.open_id_raw if cs.open_sent else self.mailbox()
-            d.do({"op": "send", "c": cs.cid, "msg": {"type": "close", "mailbox": mb, "mood": "happy"}}, force=True)
+            j = len(d.script)
+            msg = {"type": "close", "mailbox": mb, "mood": "happy"}
+            st = d.do({"op": "send", "c": cs.cid, "msg": msg}, force=True)
+            self.maybe_dup(cs, j, msg, st)
 
 
 def run_word(word, make_observer, cfg, sides):
@@ -145,3 +175,62 @@ def enumerate_words(check, cfg, sides, max_len, workers, stats, label):
     return {"enumerated_sequences": total, "enumerated_nontrivial": nt, "alphabet": nsym, "max_length": max_len,
             "exhaustive": True,
             "exhaustive_scope": "every word up to length %d over %s x %s on one nameplate (generated histories are sampled)" % (max_len, list(ACTIONS), list(sides))}
+
+
+def compile_word(word, sides, cfg, dup_at=None):
+    """Compile a word into a concrete script on a throw-away world (no observer)."""
+    with World(cfg) as w:
+        d = Driver(w, PROFILES["dups"])
+        sd = SeqDriver(d, sides, dup_at=dup_at)
+        for si, ai in word:
+            sd.step(sides[si], ACTIONS[ai])
+        return list(d.script), sd.dup_done
+
+
+def _dup_chunk(args):
+    import warnings
+    warnings.simplefilter("ignore")
+    cfg, sides, words = args
+    from .props.c14 import C14
+    check = C14()
+    n = nt = 0
+    for word in words:
+        k = 0
+        while True:
+            script, done = compile_word(word, sides, cfg, dup_at=k)
+            if not done:
+                break
+            classes = {}
+            try:
+                if check.judge(dict(cfg, profile="dups"), script, classes):
+                    nt += 1
+            except Violation as v:
+                return ("violation", "word %r, duplicate of the %d-th acknowledged command: %s" % ([[sides[s], ACTIONS[a]] for s, a in word], k, v.msg),
+                        {"property": "C14", "cfg": dict(cfg, profile="dups"), "script": script}, v.sig)
+            n += 1
+            k += 1
+    return ("ok", n, nt)
+
+
+def enumerate_dups(cfg, sides, max_len, workers, stats):
+    syms = [(s, a) for s in range(len(sides)) for a in range(len(ACTIONS))]
+    words = []
+    for L in range(1, max_len + 1):
+        words.extend(itertools.product(syms, repeat=L))
+    chunk = max(20, len(words) // (workers * 8))
+    jobs = [(cfg, sides, words[i:i + chunk]) for i in range(0, len(words), chunk)]
+    ctx = multiprocessing.get_context("fork")
+    with ctx.Pool(workers) as pool:
+        results = pool.map(_dup_chunk, jobs, chunksize=1)
+    total = nt = 0
+    for r in results:
+        if r[0] == "violation":
+            raise Violation("enumeration of duplicates: " + r[1], r[2], sig=r[3])
+        total += r[1]
+        nt += r[2]
+    stats.evaluations += total
+    for i in range(nt):
+        stats.nontrivial.add("dupword-%d" % i)
+    return {"enumerated_duplicate_insertions": total, "enumerated_words": len(words), "max_length": max_len,
+            "exhaustive": True,
+            "exhaustive_scope": "every word up to length %d over %s x %s on one nameplate, with a duplicate inserted after every successfully answered claim/release/open/close (generated histories are sampled)" % (max_len, list(ACTIONS), list(sides))}
